@@ -558,7 +558,7 @@ static void case_c15(const drvargs_t *a,long id){
         static const long Ms[]={0,1,5000,700};
         long M=Ms[rng_below(&r,4)]; if(ch>32 && M>700) M=700; long done=0, pk=0;
         int sig= rng_chance(&r,0.5)?SIG_NOISE:SIG_BURSTS; uint64_t ss=rng_next(&r);
-        while(done<M){ long n=VH_MIN(M-done,(long)rng_range(&r,1,2048)); float **b=vorbis_analysis_buffer(&vd,(int)n);
+        while(done<M){ long n=(long)rng_range(&r,1,2048); if(n>M-done) n=M-done; float **b=vorbis_analysis_buffer(&vd,(int)n);
           for(int c=0;c<ch;c++) for(long i=0;i<n;i++) b[c][i]=sig_sample(sig,ss,c,done+i,rate,M);
           vorbis_analysis_wrote(&vd,(int)n); done+=n;
           while(vorbis_analysis_blockout(&vd,&vb)==1){ vorbis_analysis(&vb,NULL); vorbis_bitrate_addblock(&vb); while(vorbis_bitrate_flushpacket(&vd,&op)) pk++; } }
